@@ -27,6 +27,14 @@ class _F(list):
     def append(self, x):
         list.append(self, f"[{GROUP[0]}] {x}")
 failures = _F()
+# definitions of Gen/Consts.lean whose extraction failed: name -> reason. They are emitted with the value of
+# the frozen reference (Ref/Consts.lean) and reported as `degraded`: for them the model-to-code tie of
+# this run is the correspondence check alone (DESIGN.md 4.1).
+FAILED_DEFS = {}
+def fail(msg, defs=()):
+    failures.append(msg)
+    for d in defs:
+        FAILED_DEFS.setdefault(d, f"[{GROUP[0]}] {msg}")
 
 def src(name):
     p = os.path.join(REPO, "src", name)
@@ -48,10 +56,10 @@ def num(tok):
         return int(tok, 16)
     return int(tok)
 
-def need(pattern, text, what, flags=re.S):
+def need(pattern, text, what, flags=re.S, defs=()):
     m = re.search(pattern, text, flags)
     if not m:
-        failures.append(f"not found: {what}")
+        fail(f"not found: {what}", defs)
         return None
     return m
 
@@ -68,25 +76,43 @@ def const_eval(text, expr, depth=0):
     mm = re.fullmatch(r'(?:u16|u32)::from_le_bytes\(\s*\*b"(..)"\s*\)', expr, re.S)
     if mm:
         return ord(mm.group(1)[0]) + 256 * ord(mm.group(1)[1])
-    mm = re.fullmatch(r"[A-Za-z_][A-Za-z0-9_]*", expr)
+    mm = re.fullmatch(r"(?:Self::)?([A-Za-z_][A-Za-z0-9_]*)", expr)
     if mm:
-        d = re.search(r"\bconst\s+" + expr + r"\s*:\s*\w+\s*=\s*(.+?);", text, re.S)
+        d = re.search(r"\b(?:const|static)\s+" + mm.group(1) + r"\s*:\s*[\w:]+\s*=\s*(.+?);", text, re.S)
         return const_eval(text, d.group(1), depth + 1) if d else None
-    return None
+    # integer arithmetic over literals and named constants: + - * << >> | & parentheses, `as T` casts
+    e = re.sub(r"\bas\s+(?:u8|u16|u32|u64|usize|i32|i64)\b", " ", expr)
+    if not re.fullmatch(r"[A-Za-z0-9_:\s+\-*()<>|&]+", e) or not re.search(r"[+\-*<>|&(]", e):
+        return None
+    def sub(m):
+        v = const_eval(text, m.group(0), depth + 1)
+        if v is None:
+            raise ValueError
+        return str(v)
+    try:
+        py = re.sub(r"0[xX][0-9A-Fa-f_]+(?:u8|u16|u32|u64|usize|i32|i64)?|\d[\d_]*(?:u8|u16|u32|u64|usize|i32|i64)?|(?:Self::)?[A-Za-z_][A-Za-z0-9_]*", sub, e)
+        v = eval(py, {"__builtins__": {}}, {})
+        return v if isinstance(v, int) and v >= 0 else None
+    except Exception:
+        return None
 
 
-def const_num(text, name, what=None):
-    m = need(r"\bconst\s+" + name + r"\s*:\s*\w+\s*=\s*([0-9a-fA-Fx_]+)\s*;", text, what or name)
-    return num(m.group(1)) if m else 0
+def const_num(text, name, what=None, defs=None):
+    m = re.search(r"\bconst\s+" + name + r"\s*:\s*\w+\s*=\s*(.+?);", text, re.S)
+    v = const_eval(text, m.group(1)) if m else None
+    if v is None:
+        fail(f"not found: {what or name}", [name] if defs is None else defs)
+        return 0
+    return v
 
 def const_array(text, name, what=None):
-    m = need(r"\b(?:const|static)\s+" + name + r"\s*:\s*\[[^\]]*\]\s*=\s*\[(.*?)\]\s*;", text, what or name)
+    m = need(r"\b(?:const|static)\s+" + name + r"\s*:\s*\[[^\]]*\]\s*=\s*\[(.*?)\]\s*;", text, what or name, defs=[name])
     if not m:
         return []
     return [num(t) for t in m.group(1).replace("\n", " ").split(",") if t.strip()]
 
-def enum_variants(text, name):
-    m = need(r"\benum\s+" + name + r"\s*\{(.*?)\n\}", text, f"enum {name}")
+def enum_variants(text, name, defs=()):
+    m = need(r"\benum\s+" + name + r"\s*\{(.*?)\n\}", text, f"enum {name}", defs=defs)
     if not m:
         return []
     out = []
@@ -102,7 +128,7 @@ def enum_variants(text, name):
             continue
         mm = re.match(r"(\w+)\s*(?:=\s*([0-9a-fA-Fx_]+))?$", part)
         if not mm:
-            failures.append(f"enum {name}: cannot parse variant {part!r}")
+            fail(f"enum {name}: cannot parse variant {part!r}", defs)
             continue
         if mm.group(2):
             nxt = num(mm.group(2))
@@ -132,9 +158,12 @@ C = {}
 for n in ["LITERAL_COUNT", "LEN_CODE_COUNT", "DIST_CODE_COUNT", "CODETREE_CODE_COUNT", "MIN_MATCH", "MAX_MATCH"]:
     C[n] = const_num(pc, n)
 # derived counts are expressions in the source; check their shape and recompute
-need(r"NONLEN_CODE_COUNT\s*:\s*usize\s*=\s*LITERAL_COUNT\s*\+\s*1\s*;", pc, "NONLEN_CODE_COUNT = LITERAL_COUNT + 1")
-need(r"LITLEN_CODE_COUNT\s*:\s*usize\s*=\s*NONLEN_CODE_COUNT\s*\+\s*LEN_CODE_COUNT\s*;", pc, "LITLEN_CODE_COUNT")
-need(r"MIN_LOOKAHEAD\s*:\s*u32\s*=\s*MAX_MATCH\s*\+\s*MIN_MATCH\s*\+\s*1\s*;", pc, "MIN_LOOKAHEAD")
+need(r"NONLEN_CODE_COUNT\s*:\s*usize\s*=\s*LITERAL_COUNT\s*\+\s*1\s*;", pc, "NONLEN_CODE_COUNT = LITERAL_COUNT + 1", defs=["NONLEN_CODE_COUNT", "LITLEN_CODE_COUNT"])
+need(r"LITLEN_CODE_COUNT\s*:\s*usize\s*=\s*NONLEN_CODE_COUNT\s*\+\s*LEN_CODE_COUNT\s*;", pc, "LITLEN_CODE_COUNT", defs=["LITLEN_CODE_COUNT"])
+need(r"MIN_LOOKAHEAD\s*:\s*u32\s*=\s*MAX_MATCH\s*\+\s*MIN_MATCH\s*\+\s*1\s*;", pc, "MIN_LOOKAHEAD", defs=["MIN_LOOKAHEAD"])
+if "LITERAL_COUNT" in FAILED_DEFS: FAILED_DEFS.setdefault("NONLEN_CODE_COUNT", FAILED_DEFS["LITERAL_COUNT"]); FAILED_DEFS.setdefault("LITLEN_CODE_COUNT", FAILED_DEFS["LITERAL_COUNT"])
+if "LEN_CODE_COUNT" in FAILED_DEFS: FAILED_DEFS.setdefault("LITLEN_CODE_COUNT", FAILED_DEFS["LEN_CODE_COUNT"])
+if "MAX_MATCH" in FAILED_DEFS or "MIN_MATCH" in FAILED_DEFS: FAILED_DEFS.setdefault("MIN_LOOKAHEAD", "[deflate] MIN_MATCH / MAX_MATCH not found")
 C["NONLEN_CODE_COUNT"] = C["LITERAL_COUNT"] + 1
 C["LITLEN_CODE_COUNT"] = C["NONLEN_CODE_COUNT"] + C["LEN_CODE_COUNT"]
 C["MIN_LOOKAHEAD"] = C["MAX_MATCH"] + C["MIN_MATCH"] + 1
@@ -145,66 +174,66 @@ for n in ["DIST_CODE_TABLE", "LENGTH_CODE_TABLE", "LENGTH_BASE_TABLE", "DIST_BAS
 # two quantize functions (their behaviour is tied by the exhaustive token-alphabet correspondence of
 # C07/C03), so a rewrite of these functions is attributed to C04 alone.
 GROUP[0] = "shape04"
-qd = need(r"fn quantize_distance\(dist: u32\) -> usize \{\s*DIST_CODE_TABLE\[if dist <= (\d+) \{\s*dist - (\d+)\s*\} else \{\s*(\d+) \+ \(\(dist - (\d+)\) >> (\d+)\)\s*\} as usize\]", pc, "quantize_distance shape")
+qd = need(r"fn quantize_distance\(dist: u32\) -> usize \{\s*DIST_CODE_TABLE\[if dist <= (\d+) \{\s*dist - (\d+)\s*\} else \{\s*(\d+) \+ \(\(dist - (\d+)\) >> (\d+)\)\s*\} as usize\]", pc, "quantize_distance shape", defs=["QUANTIZE_DISTANCE_SHAPE"])
 QD = [num(qd.group(i)) for i in range(1, 6)] if qd else [0] * 5
 need(r"fn quantize_length\(len: u32\) -> usize \{\s*LENGTH_CODE_TABLE\[len as usize - MIN_MATCH as usize\]", pc, "quantize_length shape")
 GROUP[0] = "deflate"
 
 GROUP[0] = "deflate"
 he = strip_comments(src("huffman_encoding.rs"))
-tree_code = enum_variants(he, "TreeCodeType")
+tree_code = enum_variants(he, "TreeCodeType", defs=["TREE_CODE_NAMES", "TREE_CODE_VALUES"])
 adj = {}
 for v in ["Repeat", "ZeroShort", "ZeroLong"]:
-    m = need(r"TreeCodeType::" + v + r"\s*=>\s*\((\d+),\s*(\d+)\)", he, f"tree code adjustment {v}")
+    m = need(r"TreeCodeType::" + v + r"\s*=>\s*\((\d+),\s*(\d+)\)", he, f"tree code adjustment {v}", defs=["TREE_CODE_ADJUST"])
     adj[v] = (num(m.group(1)), num(m.group(2))) if m else (0, 0)
-fx = need(r"for i in 0\.\.(\d+) \{\s*let mut wbits: u8 = (\d+);\s*if \((\d+)\.\.=(\d+)\)\.contains\(&i\) \{\s*wbits = (\d+);\s*\} else if \((\d+)\.\.=(\d+)\)\.contains\(&i\) \{\s*wbits = (\d+);", he, "fixed literal code lengths")
+fx = need(r"for i in 0\.\.(\d+) \{\s*let mut wbits: u8 = (\d+);\s*if \((\d+)\.\.=(\d+)\)\.contains\(&i\) \{\s*wbits = (\d+);\s*\} else if \((\d+)\.\.=(\d+)\)\.contains\(&i\) \{\s*wbits = (\d+);", he, "fixed literal code lengths", defs=["FIXED_LIT_SHAPE"])
 FX = [num(fx.group(i)) for i in range(1, 9)] if fx else [0] * 8
-fd = need(r"\(lit_code_lengths, vec!\[(\d+); (\d+)\]\)", he, "fixed distance code lengths")
+fd = need(r"\(lit_code_lengths, vec!\[(\d+); (\d+)\]\)", he, "fixed distance code lengths", defs=["FIXED_DIST_WIDTH", "FIXED_DIST_COUNT"])
 FD = (num(fd.group(1)), num(fd.group(2))) if fd else (0, 0)
 hdr_bits = []
 for nm, pat in [("hlit", r"let hlit = bit_reader\.get\((\d+)\)\? as usize \+ (\d+);"), ("hdist", r"let hdist = bit_reader\.get\((\d+)\)\? as usize \+ (\d+);"), ("hclen", r"let hclen = bit_reader\.get\((\d+)\)\? as usize \+ (\d+);")]:
-    m = need(pat, he, f"header field {nm}")
+    m = need(pat, he, f"header field {nm}", defs=["HEADER_FIELDS"])
     hdr_bits.append((num(m.group(1)), num(m.group(2))) if m else (0, 0))
-m = need(r"= bit_reader\.get\((\d+)\)\? as u8;\s*\}\s*let code_length_huff_code_tree", he, "code length width")
+m = need(r"= bit_reader\.get\((\d+)\)\? as u8;\s*\}\s*let code_length_huff_code_tree", he, "code length width", defs=["CODE_LENGTH_BITS"])
 CLBITS = num(m.group(1)) if m else 0
 
 GROUP[0] = "deflate"
 pt = strip_comments(src("preflate_token.rs"))
-block_type = enum_variants(pt, "BlockType")
+block_type = enum_variants(pt, "BlockType", defs=["BLOCK_TYPE_NAMES", "BLOCK_TYPE_VALUES"])
 
 GROUP[0] = "deflate"
 dr = strip_comments(src("deflate_reader.rs"))
 modes = re.findall(r"\n\s*(\d+) => \{\s*blk = PreflateTokenBlock::new\(BlockType::(\w+)\)", dr)
 if len(modes) != 3:
-    failures.append("deflate_reader: block mode arms")
-m = need(r"\(len \^ ilen\) != (0x[0-9a-fA-F]+)", dr, "stored LEN/NLEN check")
+    fail("deflate_reader: block mode arms", ["BLOCK_MODE_NAMES", "BLOCK_MODE_VALUES"])
+m = need(r"\(len \^ ilen\) != (0x[0-9a-fA-F]+)", dr, "stored LEN/NLEN check", defs=["STORED_NLEN_MASK"])
 NLEN_MASK = num(m.group(1)) if m else 0
 
 GROUP[0] = "codec"
 sc = strip_comments(src("statistical_codec.rs"))
-mis = enum_variants(sc, "CodecMisprediction")
-corr = enum_variants(sc, "CodecCorrection")
+mis = enum_variants(sc, "CodecMisprediction", defs=["MISPREDICTION_NAMES", "MISPREDICTION_VALUES"])
+corr = enum_variants(sc, "CodecCorrection", defs=["CORRECTION_NAMES", "CORRECTION_VALUES"])
 cc = strip_comments(src("cabac_codec.rs"))
 # context arrays of PredictionCabacContext, by TYPE and position (field names are free to change):
 # two `[CTX; n]` arrays followed by two `[[CTX; n]; CodecCorrection::MAX as usize]` arrays
 CTXN = [0] * 4
-m = need(r"struct\s+PredictionCabacContext\s*<\s*CTX\s*>\s*\{(.*?)\n\}", cc, "codec context struct")
+m = need(r"struct\s+PredictionCabacContext\s*<\s*CTX\s*>\s*\{(.*?)\n\}", cc, "codec context struct", defs=["CODEC_CONTEXT_SIZES"])
 if m:
     flat = [num(x) for x in re.findall(r":\s*\[CTX;\s*(\d+)\]\s*,", m.group(1))]
     nested = [num(x) for x in re.findall(r":\s*\[\[CTX;\s*(\d+)\];\s*CodecCorrection::MAX as usize\]\s*,", m.group(1))]
     if len(flat) == 2 and len(nested) == 2:
         CTXN = flat + nested
     else:
-        failures.append("not found: codec context array sizes")
+        fail("not found: codec context array sizes", ["CODEC_CONTEXT_SIZES"])
 
 GROUP[0] = "params"
 pe = strip_comments(src("preflate_parameter_estimator.rs"))
 FILE_VERSION = const_num(pe, "FILE_VERSION")
 hash_ids = {}
 for n in ["NONE", "ZLIB", "MINIZ_FAST", "LIBDEFLATE4", "LIBDEFLATE4_FAST", "ZLIBNG", "RANDOMVECTOR", "CRC32C"]:
-    hash_ids[n] = const_num(pe, "HASH_ALGORITHM_" + n)
-strategy = enum_variants(pe, "PreflateStrategy")
-huff_strategy = enum_variants(pe, "PreflateHuffStrategy")
+    hash_ids[n] = const_num(pe, "HASH_ALGORITHM_" + n, defs=["HASH_ALGORITHM_IDS"])
+strategy = enum_variants(pe, "PreflateStrategy", defs=["STRATEGY_NAMES", "STRATEGY_VALUES"])
+huff_strategy = enum_variants(pe, "PreflateHuffStrategy", defs=["HUFF_STRATEGY_NAMES", "HUFF_STRATEGY_VALUES"])
 # layout of read / write, structured: prefix, hash-algorithm arms, middle, add-policy arms
 def widths_in(body):
     return [(re.sub(r"\s+", " ", a.strip()), num(b)) for a, b in re.findall(r"encoder\.encode_value\(\s*(.*?),\s*(\d+)\s*\)\s*[;,]?", body, re.S)]
@@ -217,7 +246,7 @@ def balanced(text, start):
             if depth == 0: return j
         j += 1
     return len(text) - 1
-mwrite = need(r"pub fn write<E: PredictionEncoder>\(&self, encoder: &mut E\) \{", pe, "PreflateParameters::write")
+mwrite = need(r"pub fn write<E: PredictionEncoder>\(&self, encoder: &mut E\) \{", pe, "PreflateParameters::write", defs=["PARAM_WRITE_PREFIX", "PARAM_WRITE_HASH_ARMS", "PARAM_WRITE_MIDDLE", "PARAM_WRITE_POLICY_ARMS"])
 W_PREFIX, W_HASH, W_MIDDLE, W_POLICY = [], [], [], []
 if mwrite:
     b0 = pe.find("{", mwrite.start())
@@ -225,7 +254,7 @@ if mwrite:
     mh = re.search(r"match self\.predictor\.hash_algorithm \{", body)
     mp = re.search(r"match self\.predictor\.add_policy \{", body)
     if not mh or not mp:
-        failures.append("write: match on hash_algorithm / add_policy not found")
+        fail("write: match on hash_algorithm / add_policy not found", ["PARAM_WRITE_PREFIX", "PARAM_WRITE_HASH_ARMS", "PARAM_WRITE_MIDDLE", "PARAM_WRITE_POLICY_ARMS"])
     else:
         hb0 = body.find("{", mh.start()); hb1 = balanced(body, hb0)
         pb0 = body.find("{", mp.start()); pb1 = balanced(body, pb0)
@@ -236,8 +265,8 @@ if mwrite:
         for am in re.finditer(r"DictionaryAddPolicy::(\w+)(?:\(\w+\))?\s*=>\s*(\{.*?\}|encoder\.encode_value\([^)]*\),?)", body[pb0 + 1:pb1], re.S):
             W_POLICY.append((am.group(1), widths_in(am.group(2))))
         if widths_in(body[pb1:]):
-            failures.append("write: fields after the add policy")
-mread = need(r"pub fn read\(decoder: &mut impl PredictionDecoder\)[^{]*\{", pe, "PreflateParameters::read")
+            fail("write: fields after the add policy", ["PARAM_WRITE_PREFIX", "PARAM_WRITE_HASH_ARMS", "PARAM_WRITE_MIDDLE", "PARAM_WRITE_POLICY_ARMS"])
+mread = need(r"pub fn read\(decoder: &mut impl PredictionDecoder\)[^{]*\{", pe, "PreflateParameters::read", defs=["PARAM_READ_PREFIX", "PARAM_READ_ZLIB_EXTRA", "PARAM_READ_MIDDLE", "PARAM_READ_POLICY_SELECT", "PARAM_READ_POLICY_ARMS", "PARAM_READ_HASH_MAP"])
 R_PREFIX, R_ZLIB, R_MIDDLE, R_POLICY, R_SELECT = [], [], [], [], 0
 def rwidths(body):
     out = []
@@ -250,7 +279,7 @@ if mread:
     mz = re.search(r"if hash_algorithm == HASH_ALGORITHM_ZLIB \{", body)
     mp = re.search(r"let add_policy = match decoder\.decode_value\((\d+)\) \{", body)
     if not mz or not mp:
-        failures.append("read: zlib branch / add policy match not found")
+        fail("read: zlib branch / add policy match not found", ["PARAM_READ_PREFIX", "PARAM_READ_ZLIB_EXTRA", "PARAM_READ_MIDDLE", "PARAM_READ_POLICY_SELECT", "PARAM_READ_POLICY_ARMS", "PARAM_READ_HASH_MAP"])
     else:
         zb0 = body.find("{", mz.start()); zb1 = balanced(body, zb0)
         pb0 = body.find("{", mp.start()); pb1 = balanced(body, pb0)
@@ -261,21 +290,22 @@ if mread:
         for am in re.finditer(r"(\d+) => DictionaryAddPolicy::(\w+)(\(decoder\.decode_value\((\d+)\)\))?", body[pb0:pb1]):
             R_POLICY.append((num(am.group(1)), am.group(2), [num(am.group(4))] if am.group(4) else []))
         if rwidths(body[pb1:]):
-            failures.append("read: fields after the add policy")
+            fail("read: fields after the add policy", ["PARAM_READ_PREFIX", "PARAM_READ_ZLIB_EXTRA", "PARAM_READ_MIDDLE", "PARAM_READ_POLICY_SELECT", "PARAM_READ_POLICY_ARMS", "PARAM_READ_HASH_MAP"])
     # which constant each hash id maps to on the read side
     R_HASH = re.findall(r"HASH_ALGORITHM_(\w+) => HashAlgorithm::(\w+)", body)
 else:
     R_HASH = []
-m = need(r"max_token_count: (\d+),\s*zlib_compatible: true,\s*max_dist_3_matches: 0,\s*matching_type: MatchingType::Greedy,\s*max_chain: 0,\s*min_len: 0,\s*hash_algorithm: HashAlgorithm::None", pe, "no-dictionary parameter block")
+m = need(r"max_token_count: (\d+),\s*zlib_compatible: true,\s*max_dist_3_matches: 0,\s*matching_type: MatchingType::Greedy,\s*max_chain: 0,\s*min_len: 0,\s*hash_algorithm: HashAlgorithm::None", pe, "no-dictionary parameter block", defs=["NO_DICTIONARY_TOKEN_COUNT"])
 NODICT_TOKENS = num(m.group(1)) if m else 0
 
 GROUP[0] = "container"
 pcn = strip_comments(src("preflate_container.rs"))
-WRAPPER_VERSION = const_num(pcn, "COMPRESSED_WRAPPER_VERSION_1")
-TAGS = [const_num(pcn, n) for n in ["LITERAL_CHUNK", "DEFLATE_STREAM", "PNG_COMPRESSED"]]
-m = need(r"let mut buffer = \[0; (\d+)\];\s*let amount_to_read", pcn, "literal staging buffer size")
-STAGING = num(m.group(1)) if m else 0
-m = need(r"\(value & (0x[0-9A-Fa-f]+)\) as u8;\s*value >>= (\d+);\s*if value != 0 \{\s*byte \|= (0x[0-9A-Fa-f]+);", pcn, "write_varint shape")
+WRAPPER_VERSION = const_num(pcn, "COMPRESSED_WRAPPER_VERSION_1", defs=["WRAPPER_VERSION"])
+TAGS = [const_num(pcn, n, defs=["CHUNK_TAGS"]) for n in ["LITERAL_CHUNK", "DEFLATE_STREAM", "PNG_COMPRESSED"]]
+m = need(r"let mut buffer = \[0(?:u8)?; (\w+)\];\s*let amount_to_read", pcn, "literal staging buffer size", defs=["LITERAL_STAGING"])
+STAGING = (const_eval(pcn, m.group(1)) or 0) if m else 0
+if m and not STAGING: fail("literal staging buffer size: not a constant expression", ["LITERAL_STAGING"])
+m = need(r"\(value & (0x[0-9A-Fa-f]+)\) as u8;\s*value >>= (\d+);\s*if value != 0 \{\s*byte \|= (0x[0-9A-Fa-f]+);", pcn, "write_varint shape", defs=["VARINT_SHAPE"])
 VARINT = [num(m.group(i)) for i in range(1, 4)] if m else [0, 0, 0]
 
 GROUP[0] = "scan"
@@ -294,15 +324,17 @@ for mm in re.finditer(r"(0x[0-9A-Fa-f]{4}|[A-Z][A-Z0-9_]*)\s*=>\s*(?:Some\(\s*)?
 _kind_order = {"Zlib": 0, "ZipLocalFileHeader": 1, "Gzip": 2, "IDAT": 3}
 sigs = sorted(set(sigs), key=lambda t: (_kind_order.get(t[1], 9), t[2], t[0]))
 if not sigs:
-    failures.append("scan_deflate: signature table")
+    fail("scan_deflate: signature table", ["SIGNATURES"])
 gz = []
-for mm in re.finditer(r"if buffer\[3\] & (0x[0-9A-Fa-f]+) != 0", sd):
-    gz.append(num(mm.group(1)))
-m = need(r"let mut buffer = \[0; (\d+)\];\s*reader\.read_exact\(&mut buffer\)\?;\s*if buffer\[2\] != (\d+)", sd, "gzip fixed header")
+for mm in re.finditer(r"if buffer\[3\] & (0x[0-9A-Fa-f]+|\w+) != 0", sd):
+    v = const_eval(sd, mm.group(1))
+    if v is not None:
+        gz.append(v)
+m = need(r"let mut buffer = \[0; (\d+)\];\s*reader\.read_exact\(&mut buffer\)\?;\s*if buffer\[2\] != (\d+)", sd, "gzip fixed header", defs=["GZIP_FIXED_HEADER", "GZIP_METHOD"])
 GZ_FIXED = (num(m.group(1)), num(m.group(2))) if m else (0, 0)
-m = need(r"compression_method == (\d+)", sd, "zip method")
+m = need(r"compression_method == (\d+)", sd, "zip method", defs=["ZIP_METHOD_DEFLATE"])
 ZIP_METHOD = num(m.group(1)) if m else 0
-m = need(r"if index >= (\d+)[^{]*\{\s*let real_start = index - (\d+);", sd, "IDAT look-back")
+m = need(r"if index >= (\d+)[^{]*\{\s*let real_start = index - (\d+);", sd, "IDAT look-back", defs=["IDAT_LOOKBACK"])
 IDAT_BACK = (num(m.group(1)), num(m.group(2))) if m else (0, 0)
 
 GROUP[0] = "hash"
@@ -310,8 +342,10 @@ ha = strip_comments(src("hash_algorithm.rs"))
 MINIZ_MASK = const_num(ha, "MINIZ_LEVEL1_HASH_SIZE_MASK")
 CRC_TABLE = const_array(ha, "CRC32C_TABLE")
 RANDOM_VECTOR = const_array(ha, "RANDOM_VECTOR")
-muls = [(num(a), num(b)) for a, b in re.findall(r"hash\.wrapping_mul\((0x[0-9A-Fa-f]+|\d+)\) >> (\d+)\)", ha)]
-m = need(r"\(\(hash \^ \(hash >> (\d+)\)\) & u32::from\(MINIZ_LEVEL1_HASH_SIZE_MASK\)\)", ha, "miniz hash shape")
+muls = [(const_eval(ha, a), const_eval(ha, b)) for a, b in re.findall(r"hash\.wrapping_mul\((0x[0-9A-Fa-f]+|\w+)\) >> (\w+)\)", ha)]
+if any(a is None or b is None for a, b in muls):
+    fail("hash multipliers: not constant expressions", ["HASH_MULTIPLIERS"]); muls = []
+m = need(r"\(\(hash \^ \(hash >> (\d+)\)\) & u32::from\(MINIZ_LEVEL1_HASH_SIZE_MASK\)\)", ha, "miniz hash shape", defs=["MINIZ_HASH_SHIFT"])
 MINIZ_SHIFT = num(m.group(1)) if m else 0
 hc = strip_comments(src("hash_chain.rs"))
 MAX_BATCH = const_num(hc, "MAX_UPDATE_HASH_BATCH")
@@ -320,13 +354,14 @@ MAX_BATCH = const_num(hc, "MAX_UPDATE_HASH_BATCH")
 deltas = sorted(set(v for v in (const_eval(hc, x) for x in re.findall(r"reshift::<\s*(\w+)\s*>\s*\(", hc)) if v is not None))
 limits = sorted(set(v for v in (const_eval(hc, x) for x in re.findall(r"pos as i32 - (?:self\.)?total_shift >= (0x[0-9a-fA-F]+|\w+)", hc)) if v is not None))
 if not deltas or not limits:
-    failures.append("not found: reshift constants")
+    fail("not found: reshift constants", ["RESHIFT_DELTAS", "RESHIFT_LIMITS"])
 shifts = sorted(set(int(x) for x in re.findall(r"total_shift: (-?\d+),", hc)))
 
 GROUP[0] = "levels"
 cfg = strip_comments(src("preflate_parse_config.rs"))
 def parse_levels(name):
-    m = need(r"const " + name + r": \[PreflateParserConfig; (\d+)\] = \[(.*?)\n\];", cfg, name)
+    ldef = ["FAST_LEVELS"] if name.startswith("ZLIB") else ["SLOW_LEVELS"]
+    m = need(r"const " + name + r": \[PreflateParserConfig; (\d+)\] = \[(.*?)\n\];", cfg, name, defs=ldef)
     out = []
     if m:
         for blk in re.findall(r"PreflateParserConfig \{(.*?)\n    \}", m.group(2), re.S):
@@ -334,7 +369,7 @@ def parse_levels(name):
             nl = re.search(r"nice_length: (\d+)", blk)
             mc = re.search(r"max_chain: (\d+)", blk)
             if not (mt and nl and mc):
-                failures.append(name + ": entry")
+                fail(name + ": entry", ldef)
                 continue
             out.append((0, 0, num(nl.group(1)), num(mc.group(1))) if mt.group(1) == "Greedy" else (num(mt.group(2)), num(mt.group(3)), num(nl.group(1)), num(mc.group(1))))
     return out
@@ -526,7 +561,63 @@ A("/-- estimator-only level tables: (good_length, max_lazy, nice_length, max_cha
 A(f"def FAST_LEVELS : List (Nat × Nat × Nat × Nat) := [{', '.join(str(t) for t in FAST_LEVELS)}]")
 A(f"def SLOW_LEVELS : List (Nat × Nat × Nat × Nat) := [{', '.join(str(t) for t in SLOW_LEVELS)}]")
 A("\nend Preflate.Gen")
-emit("Consts.lean", "\n".join(L) + "\n")
+
+def def_chunks(text):
+    """split a Consts.lean text at `def NAME`: [(name or None, chunk)] (doc comments stay with the chunk before)"""
+    parts = re.split(r"(?m)^(?=def \w+ )", text)
+    out = []
+    for part in parts:
+        m = re.match(r"def (\w+) ", part)
+        out.append((m.group(1) if m else None, part))
+    return out
+
+def split_trailer(c):
+    m = re.search(r"\n((?:[ \t]*\n)*(?:/--(?:(?!-/).)*-/[ \t]*\n)?)\Z", c, re.S)
+    return (c[:m.start() + 1], m.group(1)) if m else (c, "")
+
+# lists found by counting syntactic occurrences: FEWER entries than the frozen reference means that some
+# occurrences no longer have the literal shape (a partial match), which is an extraction failure
+OCCURRENCE_LISTS = ["GZIP_FLAG_MASKS", "HASH_MULTIPLIERS", "RESHIFT_DELTAS", "RESHIFT_LIMITS", "INITIAL_TOTAL_SHIFTS",
+                    "PARAM_WRITE_PREFIX", "PARAM_WRITE_HASH_ARMS", "PARAM_WRITE_MIDDLE", "PARAM_WRITE_POLICY_ARMS",
+                    "PARAM_READ_PREFIX", "PARAM_READ_ZLIB_EXTRA", "PARAM_READ_MIDDLE", "PARAM_READ_POLICY_ARMS", "PARAM_READ_HASH_MAP"]
+gen_text = "\n".join(L) + "\n"
+ref_path = os.path.join(os.path.dirname(os.path.abspath(OUT)), "Ref", "Consts.lean")
+if not os.path.exists(ref_path):
+    ref_path = os.path.join(os.path.dirname(os.path.abspath(__file__)), "..", "lean", "Preflate", "Ref", "Consts.lean")
+degraded = []
+try:
+    ref_chunks = {n: c for n, c in def_chunks(open(ref_path).read()) if n}
+except OSError:
+    ref_chunks = {}
+chunks = def_chunks(gen_text)
+for n, c in chunks:
+    if n in OCCURRENCE_LISTS and n in ref_chunks and n not in FAILED_DEFS:
+        body = lambda t: t.split(":=", 1)[1]
+        if body(c).count(",") < body(ref_chunks[n]).count(",") or ("[]" in body(c).replace(" ", "") and "[]" not in body(ref_chunks[n]).replace(" ", "")):
+            GROUP[0] = {"GZIP_FLAG_MASKS": "scan", "HASH_MULTIPLIERS": "hash", "RESHIFT_DELTAS": "hash", "RESHIFT_LIMITS": "hash", "INITIAL_TOTAL_SHIFTS": "hash"}.get(n, "params")
+            fail(f"{n}: fewer syntactic occurrences found than in the reference (partial match)", [n])
+hard = []
+if FAILED_DEFS:
+    new = []
+    for n, c in chunks:
+        if n in FAILED_DEFS:
+            if n in ref_chunks:
+                # the reference's definition, followed by the generated chunk's own trailer (blank lines and
+                # the doc comment of the NEXT definition)
+                rc = split_trailer(ref_chunks[n])[0] + split_trailer(c)[1]
+                new.append((n, rc))
+                degraded.append({"def": n, "reason": FAILED_DEFS[n]})
+            else:
+                hard.append(f"{n}: extraction failed and the frozen reference has no such definition")
+                new.append((n, c))
+        else:
+            new.append((n, c))
+    gen_text = "".join(c for _, c in new)
+# failures that name no definition (shape guards) rest on the correspondence run as well
+for f in failures:
+    if not any(d["reason"] == f for d in degraded) and not any(f.endswith(h) for h in hard):
+        degraded.append({"def": "(shape guard)", "reason": f})
+emit("Consts.lean", gen_text)
 
 E = []
 E.append("/- GENERATED by /verif/tools/extract.py from /repo/src — do not edit. -/")
@@ -541,12 +632,15 @@ E.append("\nend Preflate.Gen")
 emit("Effects.lean", "\n".join(E) + "\n")
 
 status = {
-    "failures": failures,
+    "failures": hard,
+    "degraded": degraded,
     "fingerprints": fingerprints,
     "counts": {"effects": len(effects), "signatures": len(sigs)},
 }
 if JSON_OUT:
     json.dump(status, open(JSON_OUT, "w"), indent=1, sort_keys=True)
-for f in failures:
+for f in hard:
     print("EXTRACTION FAILURE:", f, file=sys.stderr)
-sys.exit(3 if failures else 0)
+for d in degraded:
+    print(f"EXTRACTION DEGRADED: {d['def']} taken from the frozen reference: {d['reason']}", file=sys.stderr)
+sys.exit(3 if hard else 0)
